@@ -64,7 +64,8 @@ class C03(Prop):
                     v = rng.choice([b"5", b"10", b"100", b"99999"])
                 else:
                     n = rng.choice(sizes)
-                    frag = rng.choice([b"\r\n", b"END\r\n", b"VALUE k 0 1\r\n", b"\r", b"\n", b"x", b"ab\rcd\nef"])
+                    frag = rng.choice([b"\r\n", b"END\r\n", b"VALUE k 0 1\r\n", b"\r", b"\n", b"x", b"ab\rcd\nef",
+                                       b"ERROR: disk full\r\n", b"SERVER_ERROR x\r\nCLIENT_ERROR y\r\n"])
                     v = (frag * (n // len(frag) + 1))[:n] if rng.random() < 0.5 else \
                         bytes(rng.choice(b"abc\r\nEND ") for _ in range(n))
                 vals[k] = v
@@ -95,6 +96,13 @@ class C03(Prop):
             a = [E(key), E(b"nv"), E(rng.choice([b"1001", b"1002", b"5"]))]
         elif m == "set_many":
             a = [E({kk: b"w" for kk in rng.sample(keys, rng.randint(1, 4))})]
+            if rng.random() < 0.3:
+                # one item - not the last - is refused by the server (too large): an error line among the replies
+                ks = rng.sample(keys, rng.randint(2, 4))
+                big = rng.randrange(len(ks) - 1)
+                a = [E({kk: (b"B" * 3000 if j == big else b"w") for j, kk in enumerate(ks)})]
+                for nd in nodes:
+                    nd["opts"] = dict(nd.get("opts") or {}, item_max=2048)
         elif m == "delete":
             a = [E(key)]
         elif m == "delete_many":
